@@ -45,5 +45,5 @@ ASSUMPTIONS = [
     "M4 (paper): payload bits that are only copied are verified at the declared small widths; wide configurations are run in the thorough tier",
     "parameterisations are enumerated from a grid (not all configurations)",
     "names of local signals as on a supported interpreter (harness-side tracer shim for Python 3.12; affects hint lookup only)",
-    "not covered: stream.AsyncFIFO/ClockDomainCrossing (C05), Monitor, Shifter with non-zero shift, Crossbar (mux+demux composition)",
+    "not covered: stream.AsyncFIFO/ClockDomainCrossing (C05), Monitor outside the sys domain, Crossbar (mux+demux composition); Shifter/Monitor/PipelinedActor/Endpoint.connect are in C03_shifter_etc.py",
 ]
